@@ -264,6 +264,41 @@ def binding_demo(ctx, events):
     return demos
 
 
+REPO = os.environ.get("VERIF_REPO", "/repo")
+FVS_METHODS = {"write", "read", "write_slice", "read_slice", "read_volatile_from", "read_exact_volatile_from",
+               "write_volatile_to", "write_all_volatile_to", "store", "load"}
+
+
+def container_model(ctx):
+    """PlainView at model level (spec/TransportFvs.tla): the delegation table of
+    `impl Bytes<usize> for FileVolatileSlice` is read from the source, TLC checks it against the view semantics"""
+    env = {}
+    try:
+        src = open(os.path.join(REPO, "src/common/file_buf.rs")).read()
+        a = src.index("Bytes<usize> for FileVolatileSlice")
+        body = src[a:src.index("\n}\n", a)]
+        tab = {m.group(1): m.group(2) for m in re.finditer(
+            r'fn (\w+)(?:<[^>]*>)?\s*\((?:[^{]|\{\s*\})*?\{\s*VolatileSlice::(\w+)\(\s*&self\.as_volatile_slice\(\)', body, re.S)}
+    except (OSError, ValueError):
+        tab = {}
+    if set(tab) == FVS_METHODS and set(tab.values()) <= FVS_METHODS:
+        tf = ctx.path("fvs_table.json")
+        with open(tf, "w") as f:
+            json.dump(tab, f)
+        env["FVS_TABLE"] = tf
+    else:
+        ctx.drift.append("file_buf.rs: the Bytes impl of FileVolatileSlice is no longer a pure delegation table "
+                         "(extracted %s); TransportFvs.tla checked with its default table only" % sorted(tab.items()))
+    r = C.tlc_mc(ctx, "TransportFvs", cfg="MC_TransportFvs.cfg", workers=2, env=env, timeout=600)
+    if "PlainView" in r["violated"]:
+        i = r["output"].rfind("bad = {")
+        pairs = sorted(set(re.findall(r'<<"(\w+)", "([\w-]+)">>', r["output"][i:i + 600]))) or [("container", "PlainView")]
+        for m, what in pairs:
+            ctx.violation("C04|fvs.%s|%s" % (m, what), {"model": "TransportFvs.tla", "delegation_table": tab, "tlc": r["output"][-1500:]},
+                          replay_src={"what": "TLC counterexample of PlainView", "delegation_table": tab, "output": r["output"][-4000:]})
+    return {"delegation_table": tab, "distinct": r["distinct"], "generated": r["generated"], "from_source": bool(env)}
+
+
 def run(ctx):
     pid, tier = ctx.pid, ctx.tier
     rnd = random.Random(ctx.seed)
@@ -306,6 +341,8 @@ def run(ctx):
                 pass
     if not scenarios:
         raise C.ToolError("TLC exported no behaviours")
+    if pid == "C04":
+        coverage["containers"] = container_model(ctx)
 
     # ---- 2. replay of a seeded sample on the real code
     k = min(REPLAY_SAMPLE[tier], len(scenarios))
